@@ -2,7 +2,8 @@
 
 A *peer* is an object with ``connect(host, port) -> conn`` (or raises seams.NeedsNetwork); a *conn* has
 ``feed(data: bytes) -> list[bytes | None]`` returning the chunks the kernel would deliver to the client, in order;
-``None`` in the list means EOF (connection closed by the peer); a tuple groups segments that arrive together.  The sync side is FakeSocket, the async side a real
+``None`` in the list means EOF (connection closed by the peer); a tuple groups segments that arrive together; an exception instance is
+a transport error reported at that point (timeout, connection reset).  The sync side is FakeSocket, the async side a real
 ``asyncio.StreamReader`` fed chunk by chunk plus a FakeWriter.
 """
 from __future__ import annotations
@@ -55,6 +56,9 @@ class FakeSocket:
         if not self.chunks:
             raise BlocksForever(f"read #{self.reads} with nothing in flight")
         head = self.chunks[0]
+        if isinstance(head, BaseException):  # the kernel reports an error for this read (timeout, reset): raised once, EOF afterwards
+            self.chunks[0] = None
+            raise head
         if head is None:
             self.eof_reads += 1
             if self.eof_reads > self.MAX_EOF_READS:
@@ -173,6 +177,8 @@ def deliver(reader: asyncio.StreamReader, chunks: t.Sequence[t.Optional[bytes]])
     for c in chunks:
         if isinstance(c, tuple):  # segments that reach the client together (e.g. the last data segment with the FIN behind it)
             deliver(reader, c)
+        elif isinstance(c, BaseException):  # connection error reported by the transport (connection_lost(exc))
+            reader.set_exception(c)
         elif c is None:
             reader.feed_eof()
         elif c:
